@@ -120,6 +120,13 @@ var funcSpecs = []funcSpec{
 	{rel: "agessh", name: "(*RSARecipient).Wrap", abstract: sshAbstract, opaque: sshOpaque, tape: true},
 	{rel: "agessh", name: "(*RSAIdentity).unwrap", abstract: sshAbstract, opaque: sshOpaque},
 	{rel: "agessh", name: "(*RSAIdentity).Unwrap", abstract: append([]string{"errors.Is"}, sshAbstract...), opaque: sshOpaque},
+	{rel: "", name: "newX25519RecipientFromPoint"},
+	{rel: "", name: "ParseX25519Recipient"},
+	{rel: "", name: "(*X25519Recipient).String"},
+	{rel: "", name: "newX25519IdentityFromScalar", abstract: []string{"curve25519.X25519"}},
+	{rel: "", name: "ParseX25519Identity", abstract: []string{"curve25519.X25519"}},
+	{rel: "", name: "(*X25519Identity).String"},
+	{rel: "", name: "(*X25519Identity).Recipient"},
 	{rel: "", name: "ParseRecipients", abstract: []string{"age.ParseX25519Recipient"}, opaque: map[string]string{"Recipient": "κ", "X25519Recipient": "κ"}, errInts: true},
 }
 
